@@ -115,6 +115,14 @@ class Family:
         }
         # wind direction turning with height (Ekman-like veering): theta(z) = theta + veer * z / zm; 0 for most families
         d["veer"] = float(rng.uniform(-1.2, 1.2)) if rng.random() < 0.35 else 0.0
+        # anisotropy that depends on height: Kx = ax K (z/zm)^ex, Ky = ay K (z/zm)^ey (0 for most families); or a horizontal
+        # diffusivity that does not change with height at all while Kz does
+        ua = rng.random()
+        d["ex"], d["ey"], d["kx_const"] = 0.0, 0.0, False
+        if ua < 0.2:
+            d["ex"], d["ey"] = float(rng.uniform(-0.4, 0.4)), float(rng.uniform(-0.4, 0.4))
+        elif ua < 0.3:
+            d["kx_const"] = True
         return Family(d)
 
     def __call__(self, z):
@@ -141,7 +149,11 @@ class Family:
         else:
             K = KAPPA * us * zm * np.ones_like(z)
         th = d["theta"] + d.get("veer", 0.0) * z / zm
-        return (U * np.cos(th), U * np.sin(th), d["ax"] * K, d["ay"] * K, K)
+        Kxz = d["ax"] * K * (z / zm) ** d.get("ex", 0.0)
+        Kyz = d["ay"] * K * (z / zm) ** d.get("ey", 0.0)
+        if d.get("kx_const"):
+            Kxz = d["ax"] * KAPPA * us * zm * np.ones_like(z)
+        return (U * np.cos(th), U * np.sin(th), Kxz, Kyz, K)
 
     @property
     def height_dependent(self):
